@@ -25,8 +25,7 @@ RULES = {
     "C20.CONT": "CPS -> Pending: every path reaches the scan-loop header; no Pending return value and no loop exit on that path",
     "C20.COVER": "scan domain covers all children: one arm per tuple position (arm K polls field K), loop over 0..LEN / Indexer(LEN) / whole container / key set",
     "C20.ARM0": "constructors: wakers all ready (WakerArray::new / WakerVec::new(len)), states all Pending (new_pending), Indexer::new(len)",
-    "C20.TOKEN": "a child whose readiness bit was cleared is polled in that pass (or is proven finished)",
-    "C20.WAKE": "a child's wake sets its own bit and reaches the registered task waker (std); the task waker is registered before any child poll",
+    "C20.LIVE": "premises from the wake protocol, re-checked here for this family: task waker registered first, child polled with its own sub-waker (or the caller's context), no readiness lock across a child poll, a cleared bit is followed by a poll, re-arm after an item, readiness primitives / Wake::wake forward correctly",
     "C20.ROT": "Indexer::iter / IndexIter::next visit every index in 0..max exactly once (rotation)",
     "C20.BITS0": "Readiness*::new sets every bit (std) / no_std clear_ready is always true",
 }
@@ -46,15 +45,7 @@ def run(ctx):
             if u.member is not None:
                 rule_arm0(ctx, M, u)
         from . import c01
-        sub = [u for u in units if u.family in ("join", "try_join", "merge", "zip") or u.container == "group"]
-        with ctx.renamed({"C01.TOKEN": "C20.TOKEN", "C01.REARM": "C20.ARM0", "C01.FWD": "C20.WAKE", "C01.REG": "C20.WAKE"}):
-            for u in sub:
-                c01.rule_token(ctx, u)
-                c01.rule_reg(ctx, u)
-            if cfg != "core":
-                c01.rule_insert_arm(ctx, M)
-            if cfg == "std":
-                c01.rule_fwd(ctx, M)
+        c01.live_premises(ctx, M, units, "C20.LIVE")
         prims.check_indexer(ctx, M, "C20.ROT")
         if cfg == "std":
             prims.check_bits(ctx, M, "C20.BITS0")
